@@ -152,6 +152,7 @@ class Ctx:
             self._run_one(name, check, case)
 
         import hypothesis
+        import hypothesis.errors
         from hypothesis import HealthCheck, Phase, given, settings
 
         tolerated = {v['sig'] for v in self.violations if v['clause'] == name}
@@ -176,6 +177,13 @@ class Ctx:
                          print_blob=False, derandomize=False)(given(strategy)(body)))
             try:
                 test()
+            except hypothesis.errors.Flaky:
+                if 'last' not in state:
+                    raise
+                case, f = state['last']  # a failure was observed; it did not replay identically
+                self.add_violation(name, Fail(f.msg + ' [flaky on replay]', f.sig), case)
+                tolerated.add(f'{name}:{f.sig or "oracle"}')
+                continue
             except Fail:
                 case, f = state['last']
                 self.add_violation(name, f, case)
@@ -214,21 +222,25 @@ class Ctx:
 
     @staticmethod
     def _guard(check, case):
+        """Run check(case); exceptions escaping from the code under test become Fail.  The Fail is
+        raised outside the except block so that it carries no __context__ (Hypothesis keys
+        failures on the origin of the exception including its context)."""
+        err = None
         try:
             check(case)
         except Fail:
             raise
-        except RecursionError as exc:  # traceback is useless; still code under test if dznpy is on it
-            if dznpy_frame(exc):
-                raise Fail(f'RecursionError: {exc}', exc_sig(exc)) from None
-            raise
-        except Exception as exc:  # pylint: disable=broad-except
-            if type(exc).__module__.startswith('hypothesis'):
+        except RecursionError as exc:  # the traceback is useless but dznpy is on it
+            if not dznpy_frame(exc):
                 raise
-            if dznpy_frame(exc):
-                tb = ''.join(traceback.format_exception(type(exc), exc, exc.__traceback__)[-6:])
-                raise Fail(f'unexpected {type(exc).__name__}: {exc}\n{tb}', exc_sig(exc)) from None
-            raise
+            err = Fail(f'RecursionError: {str(exc)[:80]}', exc_sig(exc))
+        except Exception as exc:  # pylint: disable=broad-except
+            if type(exc).__module__.startswith('hypothesis') or not dznpy_frame(exc):
+                raise
+            tb = ''.join(traceback.format_exception(type(exc), exc, exc.__traceback__)[-6:])
+            err = Fail(f'unexpected {type(exc).__name__}: {exc}\n{tb}', exc_sig(exc))
+        if err is not None:
+            raise err
 
 
 def load_regress(prop, clause):
